@@ -3,6 +3,7 @@ C19 - dictionary findall returns complete, resolvable, history-independent resul
 
 Lean: Model/FindAll.lean, Proofs/FindAll.lean, Proofs/FindAllDesc.lean, Proofs/FindAllList.lean (list roots),
   Proofs/FindAllTail.lean ('//*/name/sub'), Props/C19.lean
+(the model follows the code with fixes C19-a ... C19-f applied)
 B streams: fa.tok (normalisation), fa.find (findall end to end + state of the default objects after the call),
   fa.findm (findall(xpath, raise_exception) in both modes through the public entry point), fa.raw (_findall with raise_exception=False / explicit token lists), fa.first (findfirst), fa.hist (sequences of
   searches through the shared default objects), fa.pure (result + defaults + the container as it is AFTER the call against
@@ -16,7 +17,8 @@ C evaluators (the statement on the real code): search (every key through item ac
   IndexError/KeyError with raise_exception=False and never KeyError with True), mixed (findall/findfirst on list-rooted and dict-rooted
   containers interleaved and repeated in one process: every outcome equals the one of a freshly loaded module and the
   first outcome of the same search; encoding and identity of every node of the container unchanged; findfirst
-  none/many signalling).
+  none/many signalling), text ('//*/name[text() op v]' with leaves of every kind against an independent oracle, agreement
+  with item access).  In search / findfirst / mixed a raise is "no claim" only for what a token itself refuses.
 """
 import re
 import types
@@ -31,9 +33,11 @@ MANIFEST = dict(
               "arguments as explicit state + differential correspondence with the implementation (results in order, exception "
               "class, contents of _findall.__defaults__ after every call) + the statement executed on the implementation",
     text="Lean (Props/C19.lean), all unbounded in tree size, depth, expression and history length, for the code with "
-         "fixes C19-a/b/c/d/e applied (d: a name/index step below a final element is a miss of that branch instead of "
+         "fixes C19-a/b/c/d/e/f applied (d: a name/index step below a final element is a miss of that branch instead of "
          "KeyError('Internal error'), so '//*/name/first' goes on with the other branches; e: findall hands raise_exception on to "
-         "_findall, which findfirst relies on). Every theorem about findallTop holds for both modes (re). n0dict.findall and n0list.findall hand self to the same findall(), so the model has "
+         "_findall, which findfirst relies on; f: a text() condition compares a node that is not a string - an int/bool/float node "
+         "as a number with the expected text converted as item access does, None/dict/list equal to no text - instead of raising "
+         "AttributeError in both modes, which aborted fan-out and wildcard searches with real matches). Every theorem about findallTop holds for both modes (re). n0dict.findall and n0list.findall hand self to the same findall(), so the model has "
          "one entry point (findallTop) for both roots. FOR EVERY ROOT (dict or list, any tree): C19_state_invariant - a search "
          "started from the fresh default objects ([], {}) leaves them ([], {}), for every tree, expression and outcome "
          "(exceptions included); C19_objects_untouched - no call of _findall modifies the stack dict it received and an empty "
@@ -83,6 +87,17 @@ MANIFEST = dict(
          "'//' = the root itself) return that value and leave the tree unchanged; C19_resolves_list - in particular the key of "
          "an exact-path result. C19_text_key_fixed (witness of the former finding C19-c), C19_scalar_in_list_cex, "
          "C19_scalar_in_list_root_cex (a scalar in a list under a wildcard/name raises IndexError: outside the quantifier). "
+         "TEXT() CONDITIONS (fix C19-f): C19_text_never_attribute_error / C19_findfirst_never_attribute_error - no search raises "
+         "AttributeError, for every tree, expression, state and mode; C19_exceptions_from_expression - every exception of findall is "
+         "TypeError/ValueError/SyntaxError of a token of the expression itself (classify) or, with raise_exception=True only, "
+         "IndexError/KeyError: nothing is raised because of the kind of a node; C19_text_step - a text() step on any node either "
+         "misses that branch (None, objects untouched) or goes on in the same node; C19_text_str_unchanged - on string nodes the "
+         "case-insensitive comparison as before; C19_text_nonstr_selects - an int node equals the expected text iff int(text) is that "
+         "number, a bool is 1/0, None/dict/list equal no text (so '=' misses and '!=' selects them); C19_text_agrees_item_access - on "
+         "every node that is neither a string nor a float the comparison IS the one of the item-access model (XPath.textEqCond), "
+         "C19_text_str_item_access_subset for strings (item access is case-sensitive); C19_text_float_node(_int) - float nodes: integer "
+         "literals below 10^15 and texts that cannot be float literals are decided, other float literals are outside the model "
+         "(unsupported, evaluator text only); C19_text_nonstr_fixed - the witnesses of the former finding. "
          "C19_descendant_tail (+_positions, _iff; Proofs/FindAllTail.lean): on a dict root with KeysOkV, ContOkV and no entry called "
          "name being a list, '//*/name/sub' returns exactly, in document order, the entries sub of the dictionaries called name at "
          "any depth under their canonical xpaths - a name that is a final element is a miss of that branch and the search goes "
@@ -98,7 +113,12 @@ MANIFEST = dict(
          "loaded module, fan-out also at a list root, descendant in document order and again after other searches on the "
          "same object, findfirst none/one/many also on list roots, findall/findfirst on list- and dict-rooted containers "
          "interleaved and repeated in one process with encoding and identity of every node unchanged) is executed on the "
-         "implementation.",
+         "implementation. In the evaluators search, findfirst and mixed a raise counts as 'no claim' only when it is the "
+         "TypeError/ValueError/SyntaxError that a token of the expression raises by itself (token_error, a port of classify written "
+         "in the harness) or, with raise_exception=True, IndexError/KeyError; every other raise is a failure. Evaluator text: "
+         "'//*/name[text() op v]' (+ '/../sibling') on trees whose entries called name are int/float/bool/None/str/containers against "
+         "an independent oracle - exactly the selected entries in document order, both modes, findfirst, after other searches, and "
+         "agreement with item access on which nodes the condition selects.",
     note="keys are plain names (an n0dict resolves keys containing '/' or '[' as xpaths); lower()/isnumeric() beyond ASCII "
          "are outside the model (answered 'unsupported'); object identity is checked on the implementation only.",
     design_ref="5/C19",
@@ -1355,7 +1375,9 @@ def run(ctx):
         "object identity is checked on the implementation only; the model speaks about values/positions",
         "the model does not thread the tree (it is an argument, never part of a result): 'the tree is not modified' is checked on the implementation (stream fa.pure: encoding after the call; evaluators search/history/mixed: encoding and identity of every node)",
         "n0list.findall / n0dict.findall hand self to the same findall(): one model entry point (findallTop) for both roots; half of the generated trees are list-rooted",
-        "the model follows n0struct_findall.py with fixes C19-a ... C19-e applied (d: a step below a final element is a miss; e: findall passes raise_exception on to _findall)",
+        "the model follows n0struct_findall.py with fixes C19-a ... C19-f applied (d: a step below a final element is a miss; e: findall passes raise_exception on to _findall; f: text() compares nodes that are not strings instead of raising AttributeError)",
+        "text() on a float node: float(expected) is modelled for integer literals below 10^15 and for texts that cannot be float literals; other float literals are answered 'unsupported' by the model (< 2 % of the streams) and covered by the evaluator text on the implementation",
+        "a raise is 'no claim' for the evaluators only if a token of the expression raises that class by itself (harness port token_error of the model's classify; tokens with characters beyond ASCII: no claim) or it is IndexError/KeyError with raise_exception=True",
         "'as documented' for findfirst: there is no prose documentation; the contract is the signature (raise_exception=True) and the code of findfirst itself - it searches with findall(node, xpath, False) and signals none by IndexError('Not found item') / (None, None), many by IndexError / the first pair",
         "'fresh search' of the history evaluator = the same search on a newly executed copy of n0struct_findall.py (new function objects, new default objects)",
     ]
